@@ -105,7 +105,7 @@ def selName (s : VSel) : Option String :=
 def propBin (op : String) (b : Bool) (m : Matching) (l r : Expr V) : Expr V :=
   match l, r with
   | .vsel ls, .vsel rs =>
-    if comparisonOps.contains op || !m.labels.isEmpty || m.card != .oneToOne
+    if comparisonOps.contains op || m.on || !m.labels.isEmpty || m.card != .oneToOne
         || ls.filters.isSome || rs.filters.isSome || selName ls == selName rs then
       .bin op b m l r
     else
